@@ -1,6 +1,7 @@
-//! C06 on real networks: a connected peer misbehaves on the raw QUIC connection underneath its anemo connection (hook
-//! `quinn_connection`); after every misbehaviour a well-formed RPC on the SAME connection and one from another peer must succeed.
-use anemo::verif_hooks as h;
+//! C06 on real networks: a connected peer that is NOT anemo (a bare quinn / rustls client with a valid certificate, see rawdial.rs)
+//! misbehaves on its connection; after every misbehaviour a well-formed RPC on the SAME connection (encoded by hand here, from the
+//! statement of the wire format) and one from another, honest peer must succeed.  Uses no hook of the library.
+use crate::rawdial::raw_client;
 use anemo::{Config, Request, Response};
 use bytes::Bytes;
 use serde_json::{json, Value};
@@ -19,6 +20,43 @@ fn net(key: u8, slow_ms: u64) -> anemo::Network {
     c.connect_timeout_ms = Some(3000);
     anemo::Network::bind("127.0.0.1:0").server_name("verif").private_key([key; 32]).config(c).start(service(slow_ms)).expect("network")
 }
+/// version preamble + length-prefixed bincode header (route, no headers) + length-prefixed body
+pub fn encode_request(route: &str, body: &[u8]) -> Vec<u8> {
+    let mut h = Vec::new();
+    h.extend_from_slice(&(route.len() as u64).to_le_bytes());
+    h.extend_from_slice(route.as_bytes());
+    h.extend_from_slice(&0u64.to_le_bytes());
+    let mut m = b"anemo\x00\x01\x00".to_vec();
+    m.extend_from_slice(&(h.len() as u32).to_be_bytes());
+    m.extend_from_slice(&h);
+    m.extend_from_slice(&(body.len() as u32).to_be_bytes());
+    m.extend_from_slice(body);
+    m
+}
+/// (status, body) of a response message
+fn decode_response(m: &[u8]) -> Option<(u16, Vec<u8>)> {
+    if m.len() < 12 || &m[..8] != b"anemo\x00\x01\x00" { return None; }
+    let hl = u32::from_be_bytes(m[8..12].try_into().ok()?) as usize;
+    let h = m.get(12..12 + hl)?;
+    let status = u16::from_le_bytes(h.get(0..2)?.try_into().ok()?);
+    let rest = &m[12 + hl..];
+    let bl = u32::from_be_bytes(rest.get(0..4)?.try_into().ok()?) as usize;
+    Some((status, rest.get(4..4 + bl)?.to_vec()))
+}
+/// one well-formed RPC by hand on a raw connection
+async fn raw_rpc(conn: &quinn::Connection, tag: &str, limit_ms: u64) -> (bool, u64) {
+    let t0 = Instant::now();
+    let body = format!("probe-{tag}").into_bytes();
+    let fut = async {
+        let (mut tx, mut rx) = conn.open_bi().await.ok()?;
+        tx.write_all(&encode_request("/probe", &body)).await.ok()?;
+        tx.finish().ok()?;
+        let all = rx.read_to_end(1 << 20).await.ok()?;
+        decode_response(&all)
+    };
+    let r = tokio::time::timeout(Duration::from_millis(limit_ms), fut).await;
+    (matches!(r, Ok(Some((200, ref b))) if *b == body), t0.elapsed().as_millis() as u64)
+}
 async fn probe(from: &anemo::Network, to: anemo::PeerId, tag: &str, limit_ms: u64) -> (bool, u64) {
     let t0 = Instant::now();
     let body = Bytes::from(format!("probe-{tag}").into_bytes());
@@ -31,12 +69,22 @@ pub async fn hostile_streams(a: &Value) -> Value {
     let limit_ms = a.get("limit_ms").and_then(|x| x.as_u64()).unwrap_or(1000);
     let s = net(21, slow_ms);
     let honest = net(22, slow_ms);
-    let hostile = net(23, slow_ms);
-    let sid = hostile.connect(s.local_addr()).await.expect("connect");
     honest.connect(s.local_addr()).await.expect("connect");
-    let conn = h::quinn_connection(&hostile.peer(sid).expect("peer"));
-    let cfg = Config::default();
-    let valid = h::write_request_bytes(&cfg, Request::new(Bytes::from_static(b"hello")).with_route("/x")).await.unwrap();
+    let (ep, public) = raw_client(23, "verif");
+    let hostile_id = anemo::PeerId(public);
+    let conn = match tokio::time::timeout(Duration::from_secs(3), ep.connect(s.local_addr(), "verif").expect("connect")).await {
+        Ok(Ok(c)) => c,
+        other => return json!({"setup_failed": format!("the raw client could not connect: {:?}", other.map(|r| r.map(|_| ()))) }),
+    };
+    // anemo's acknowledgement: the listener's 8-byte version frame on a unidirectional stream
+    let mut ack = [0u8; 8];
+    let acked = match tokio::time::timeout(Duration::from_secs(2), conn.accept_uni()).await {
+        Ok(Ok(mut rx)) => matches!(tokio::time::timeout(Duration::from_secs(1), rx.read_exact(&mut ack)).await, Ok(Ok(()))),
+        _ => false,
+    };
+    if !acked { return json!({"setup_failed": "the listener did not acknowledge the raw client"}); }
+    for _ in 0..100 { if s.peers().contains(&hostile_id) { break; } tokio::time::sleep(Duration::from_millis(10)).await; }
+    let valid = encode_request("/x", b"hello");
     let mut keep_send = Vec::new();
     let mut keep_recv = Vec::new();
     let mut steps = Vec::new();
@@ -81,22 +129,27 @@ pub async fn hostile_streams(a: &Value) -> Value {
                 }
             }
             "slow_handler_in_flight" => {
-                let hn = hostile.clone();
-                slow_task = Some(tokio::spawn(async move { hn.rpc(sid, Request::new(Bytes::from_static(b"slow-one"))).await.map(|r| r.body().to_vec()) }));
+                let c2 = conn.clone();
+                slow_task = Some(tokio::spawn(async move {
+                    let (mut tx, mut rx) = c2.open_bi().await.ok()?;
+                    tx.write_all(&encode_request("/slow", b"slow-one")).await.ok()?;
+                    tx.finish().ok()?;
+                    decode_response(&rx.read_to_end(1 << 20).await.ok()?)
+                }));
                 tokio::time::sleep(Duration::from_millis(100)).await;
                 // a first quick request completes while the slow one is still being handled ...
-                let _ = probe(&hostile, sid, "warmup", limit_ms).await;
+                let _ = raw_rpc(&conn, "warmup", limit_ms).await;
             }
             _ => {}
         }
         tokio::time::sleep(Duration::from_millis(50)).await;
         // ... and the next well-formed request on the same connection must still be served promptly
-        let (same_ok, same_ms) = probe(&hostile, sid, name, limit_ms).await;
+        let (same_ok, same_ms) = raw_rpc(&conn, name, limit_ms).await;
         let (other_ok, other_ms) = probe(&honest, s.peer_id(), name, limit_ms).await;
         steps.push(json!({"misbehaviour": name, "same_connection_rpc_ok": same_ok, "same_connection_ms": same_ms, "other_peer_rpc_ok": other_ok, "other_peer_ms": other_ms, "note": note}));
     }
-    let slow_ok = match slow_task { Some(t) => matches!(tokio::time::timeout(Duration::from_millis(slow_ms + 3000), t).await, Ok(Ok(Ok(ref b))) if b == b"slow-one"), None => true };
-    let still = s.peers().contains(&hostile.peer_id()) && s.peers().contains(&honest.peer_id());
+    let slow_ok = match slow_task { Some(t) => matches!(tokio::time::timeout(Duration::from_millis(slow_ms + 3000), t).await, Ok(Ok(Some((200, ref b)))) if b == b"slow-one"), None => true };
+    let still = s.peers().contains(&hostile_id) && s.peers().contains(&honest.peer_id());
     let (final_ok, _) = probe(&honest, s.peer_id(), "final", limit_ms).await;
     drop(keep_send); drop(keep_recv);
     json!({"steps": steps, "slow_rpc_ok": slow_ok, "both_still_connected": still, "final_rpc_ok": final_ok, "limit_ms": limit_ms, "slow_ms": slow_ms})
